@@ -66,7 +66,7 @@ def _run_once(chk):
                     r = l
                 if wellformed_bound(l, r):
                     break
-            fb = rng.choice(["F", 'q"\\', None, None, None])
+            fb = rng.choice(["F", 'q"\\', "n=a", "==", " ", None, None, None, None])
             bs.append((l, r, fb, single))
         inp = eol.join(recs) + eol
         c = {"kind": "cut", "eng": rng.choice(["str", "auto"]), "b": ",".join(bound_text(*b) for b in bs), "in": inp.encode(), "z": z, "json": True}
